@@ -97,7 +97,9 @@ class Decorator:
         if self.pos != len(toks):
             raise common.MachineryError('skeleton not consumed: %r' % (toks,))
         b.fns[0]['body'] = mp.initial_assignments(b, self.r, self.names, self.init, self.cx, self.objects, self.lists) + body
-        return b.finish()
+        p = b.finish()
+        p['keys'] = 1 if (self.objects and self.r.random() < 0.4) else 0
+        return p
 
     def _reads_of(self, b, e):
         x = b.exprs[e - 1]
